@@ -55,24 +55,25 @@ type Config struct {
 
 // Member is one in-process cluster member.
 type Member struct {
-	Idx     int
-	Name    string // host:port of the RESP server, the member's name in the cluster
-	DB      *olric.Olric
-	V       *olric.Verif
-	Emb     *olric.EmbeddedClient
-	Stopped bool
-	cfg     *config.Config
+	Idx      int
+	Name     string // host:port of the RESP server, the member's name in the cluster
+	DB       *olric.Olric
+	V        *olric.Verif
+	Emb      *olric.EmbeddedClient
+	Stopped  bool
+	cfg      *config.Config
 	startErr chan error
 }
 
 // Cluster is a set of in-process members.
 type Cluster struct {
-	mu      sync.Mutex
-	Cfg     Config
-	Members []*Member
-	nextIdx int
-	noWait  bool
-	pending []*Member
+	expectedLeaves map[string]int // member name -> leave events it is expected to have seen
+	mu             sync.Mutex
+	Cfg            Config
+	Members        []*Member
+	nextIdx        int
+	noWait         bool
+	pending        []*Member
 }
 
 // StartTogether starts n members at once and waits until all of them are
@@ -196,9 +197,9 @@ func (c *Cluster) memberConfig(port, mlPort int) *config.Config {
 	mc.AdvertisePort = mlPort
 	if cc.FastFailureDetection {
 		// fast, but not so fast that a loaded machine produces false suspicions all the time
-		mc.ProbeInterval = 200 * time.Millisecond
-		mc.ProbeTimeout = 150 * time.Millisecond
-		mc.SuspicionMult = 3
+		mc.ProbeInterval = 300 * time.Millisecond
+		mc.ProbeTimeout = 250 * time.Millisecond
+		mc.SuspicionMult = 4
 		mc.GossipInterval = 30 * time.Millisecond
 		mc.PushPullInterval = 2 * time.Second
 		mc.RetransmitMult = 3
@@ -381,6 +382,51 @@ func (c *Cluster) AddMemberAt(port int) (*Member, error) {
 func (m *Member) Port() int { return m.cfg.BindPort }
 
 // StopGraceful shuts a member down with a leave broadcast.
+func (c *Cluster) noteStop(m *Member) {
+	// called with c.mu held: every other live member will see one leave event
+	if c.expectedLeaves == nil {
+		c.expectedLeaves = map[string]int{}
+	}
+	for _, o := range c.Members {
+		if !o.Stopped && o != m {
+			c.expectedLeaves[o.Name]++
+		}
+	}
+}
+
+// LeaveAccounting describes observed vs expected leave events per live member.
+func (c *Cluster) LeaveAccounting() string {
+	counts := verifhook.Counts()
+	c.mu.Lock()
+	defer c.mu.Unlock()
+	s := ""
+	for _, m := range c.Members {
+		st := "live"
+		if m.Stopped {
+			st = "stopped"
+		}
+		s += fmt.Sprintf("%s(%s) saw %d leaves, expected %d; ", m.Name, st, counts[m.Name+"|member.leave"], c.expectedLeaves[m.Name])
+	}
+	return s
+}
+
+// Flapped reports whether some live member has seen more leave events than the
+// harness caused: a false failure suspicion (typically on an overloaded machine).
+func (c *Cluster) Flapped() bool {
+	counts := verifhook.Counts()
+	c.mu.Lock()
+	defer c.mu.Unlock()
+	for _, m := range c.Members {
+		if m.Stopped {
+			continue
+		}
+		if int(counts[m.Name+"|member.leave"]) > c.expectedLeaves[m.Name] {
+			return true
+		}
+	}
+	return false
+}
+
 func (c *Cluster) StopGraceful(m *Member) {
 	c.mu.Lock()
 	if m.Stopped {
@@ -388,6 +434,7 @@ func (c *Cluster) StopGraceful(m *Member) {
 		return
 	}
 	m.Stopped = true
+	c.noteStop(m)
 	c.mu.Unlock()
 	ctx, cancel := context.WithTimeout(context.Background(), 10*time.Second)
 	defer cancel()
@@ -402,6 +449,7 @@ func (c *Cluster) StopAbrupt(m *Member) {
 		return
 	}
 	m.Stopped = true
+	c.noteStop(m)
 	c.mu.Unlock()
 	m.DB.VerifAbruptStop()
 }
